@@ -824,6 +824,7 @@ func (c10Prop) Execute(p *Plan, run *Run) any {
 		if violated {
 			break
 		}
+		tick()
 		what := op.Op
 		nOpen := len(openHelds())
 		sigged := func() {
